@@ -208,10 +208,7 @@ fn eval_path_expr(
         expr::PathExpr::Path(filter, location) => {
             eval_filtered_loc_expr(filter, location, node.clone(), context)?.as_value()
         }
-        expr::PathExpr::Root => match node {
-            dom::XmlNode::Document(_) => vec![node].as_value(),
-            _ => vec![node.owner_document().unwrap().as_node()].as_value(),
-        },
+        expr::PathExpr::Root => root(node).as_value(),
     };
 
     Ok(nodes)
@@ -292,13 +289,12 @@ fn eval_filtered_loc_expr(
                     .collect(),
             }
         } else {
-            let root = match node {
-                dom::XmlNode::Document(_) => node,
-                _ => node.owner_document().unwrap().as_node(),
-            };
             match op {
-                expr::LocationPathOperator::Current => vec![root],
-                expr::LocationPathOperator::DescendantOrSelfNode => descendant_and_self(root),
+                expr::LocationPathOperator::Current => root(node),
+                expr::LocationPathOperator::DescendantOrSelfNode => root(node)
+                    .into_iter()
+                    .flat_map(descendant_and_self)
+                    .collect(),
             }
         }
     } else {
@@ -507,6 +503,18 @@ fn eval_func_expr(
 }
 
 // -----------------------------------------------------------------------------------------------
+
+/// The document node of `node`; nothing for a node without owner document (a namespace node).
+fn root(node: dom::XmlNode) -> Vec<dom::XmlNode> {
+    match node {
+        dom::XmlNode::Document(_) => vec![node],
+        _ => node
+            .owner_document()
+            .map(|v| v.as_node())
+            .into_iter()
+            .collect(),
+    }
+}
 
 fn ancestor(node: dom::XmlNode) -> Vec<dom::XmlNode> {
     let mut nodes = vec![];
